@@ -99,8 +99,73 @@ def check(spec):
     return bad
 
 
+def describe(m):
+    got = dict(m.getSignatureInfo())
+    got['positional'] = tuple(got['positional'])
+    got['required'] = tuple(got['required'])
+    return got
+
+
+def compare(m, exp, what):
+    bad = []
+    got = describe(m)
+    for k in ('positional', 'required', 'optional', 'varargs', 'kwargs'):
+        if got[k] != exp[k]:
+            bad.append(('history.getSignatureInfo.%s' % k, '%s: getSignatureInfo()[%r] is %r, inspect.signature says %r' % (what, k, got[k], exp[k])))
+    if m.getSignatureString() != sigstring(exp):
+        bad.append(('history.getSignatureString', '%s: getSignatureString() is %r, expected %r' % (what, m.getSignatureString(), sigstring(exp))))
+    return bad
+
+
+def check_histories():
+    """descriptions must not depend on what was described before: functions sharing one code object with different
+    defaults / attributes, the same function under both imlevels and as bound method, __defaults__ replaced in between"""
+    bad = []
+
+    def factory(default, strict):
+        def getter(self, key, default=default, strict=strict, *rest, **opts):
+            return key
+        return getter
+    fam = [factory('first', False), factory(None, True), factory(3, 'x')]
+    fam[0].role = 'one'
+    fam[1].role = 'two'
+    for rnd in range(2):
+        for i, f in enumerate(fam):
+            m = fromFunction(f)
+            bad += compare(m, expected(f, False), 'function #%d of a family sharing one code object (round %d, fromFunction)' % (i, rnd))
+            m1 = fromFunction(f, imlevel=1)
+            bad += compare(m1, expected(f, True), 'function #%d of a family sharing one code object (round %d, imlevel=1)' % (i, rnd))
+            K = type('K', (), {'getter': f})
+            mm = fromMethod(K().getter)
+            bad += compare(mm, expected(f, True), 'bound method #%d of a family sharing one code object (round %d)' % (i, rnd))
+            if i < 2 and m.queryTaggedValue('role') != f.role:
+                bad.append(('history.tagged', 'function #%d of a family: tagged value role is %r, the function attribute is %r' % (
+                    i, m.queryTaggedValue('role'), f.role)))
+            if i == 2 and list(m.getTaggedValueTags()):
+                bad.append(('history.tagged', 'function #2 of a family has no attributes but tagged values %r' % (list(m.getTaggedValueTags()),)))
+
+    def g(a, b=1, c=2):
+        return a
+    bad += compare(fromFunction(g), expected(g, False), 'g before its __defaults__ are replaced')
+    g.__defaults__ = (7, 8)
+    bad += compare(fromFunction(g), expected(g, False), 'g after g.__defaults__ = (7, 8)')
+    g.__defaults__ = (9,)
+    bad += compare(fromFunction(g), expected(g, False), 'g after g.__defaults__ = (9,)')
+    g.__defaults__ = None
+    bad += compare(fromFunction(g), expected(g, False), 'g after g.__defaults__ = None')
+    g.__defaults__ = (1, 2, 3)
+    bad += compare(fromFunction(g), expected(g, False), 'g after g.__defaults__ = (1, 2, 3)')
+    # returned descriptions are independent objects
+    a, b = fromFunction(g), fromFunction(g)
+    a.getSignatureInfo()['optional']['a'] = 'poison'
+    a.optional['b'] = 'poison'
+    bad += compare(b, expected(g, False), 'second description of g after the first one was mutated by its owner')
+    bad += compare(fromFunction(g), expected(g, False), 'third description of g after the first one was mutated by its owner')
+    return bad
+
+
 def replay(spec):
-    bad = check(spec)
+    bad = check(spec) if spec != 'histories' else check_histories()
     for sig, what in bad:
         print('violated:', sig, what)
     sys.exit(1 if bad else 0)
@@ -109,8 +174,11 @@ def replay(spec):
 def run(ctx):
     ctx.rule = ('every signature with <=2 positional-only, <=2 positional, <=2 defaulted, optional *args, <=1+1 keyword-only '
                 '(required/defaulted), optional **kw; as plain function and as bound method (self dropped; also self with '
-                'a default); oracle inspect.signature; distinct = distinct signature shapes')
+                'a default); oracle inspect.signature; plus description histories (functions sharing a code object, both imlevels, replaced __defaults__, mutated earlier descriptions); distinct = distinct signature shapes')
     ctx.bounds = 'parameters per kind <= 2'
+    ctx.case('histories')
+    for sig, what in check_histories():
+        ctx.violation(sig, what, "from falsify.C18 import replay\nreplay('histories')\n")
     n = 0
     rng = [range(3), range(3), range(3), (False, True), range(2), range(2), (False, True)]
     for spec in itertools.product(*rng):
